@@ -126,8 +126,11 @@ def impl_case(args) -> dict:
             out["errors"].append(f"exit {code}: {stdout[:300]}")
         else:
             def _abs(fp):
-                a = os.path.join(cwd, fp)
-                return a if (os.path.lexists(a) or not os.path.lexists(os.path.join(proj, fp))) else os.path.join(proj, fp)
+                # file-placement prints paths relative to the project root (here given explicitly); only when such a path does not
+                # exist is the spelling taken relative to the working directory (a nested directory named like the target makes
+                # both readings exist, so the order matters)
+                b = os.path.join(proj, fp)
+                return b if os.path.lexists(b) else os.path.join(cwd, fp)
             got = sorted({os.path.relpath(_abs(v["file_path"]), target_abs) for v in vs})
             out["linted"] = got
             out["dups"] = len(vs) - len(got)
